@@ -3,6 +3,9 @@
 // This file is NOT part of /repo: the injector appends `#[path = ...] mod verif_root;` to a scratch copy of lib.rs.
 #![allow(dead_code, unused_imports, non_snake_case, clippy::all)]
 
+/// Hash of every source file of the scratch copy (see engine/common.py): makes cargo rebuild this crate whenever any source changed.
+pub const VERIF_SRC_HASH: Option<&str> = option_env!("VERIF_SRC_HASH");
+
 #[cfg(verif_native)]
 #[path = "support.rs"]
 pub mod support;
